@@ -85,3 +85,57 @@ func subC19Stress(args []string) {
 	}
 	fmt.Fprintf(w, "DONE rounds=%d\n", rounds)
 }
+
+// subC19CloseRace: Receive on fresh keys racing Close (no scheduler, many rounds): every Receive either is refused
+// with 'closed' or hands out a function that returns 'closed' once Close has returned — it never blocks on a
+// broadcaster that is closed.
+func subC19CloseRace(args []string) {
+	ms := 800
+	fmt.Sscan(args[0], &ms)
+	stop := time.Now().Add(time.Duration(ms) * time.Millisecond)
+	rounds := 0
+	for time.Now().Before(stop) {
+		rounds++
+		b := utils.NewBroadcaster[int]()
+		start := make(chan struct{})
+		var wg sync.WaitGroup
+		fns := make([]func() (*int, error), 4)
+		for i := 0; i < 4; i++ {
+			i := i
+			wg.Add(1)
+			go func() {
+				defer wg.Done()
+				<-start
+				if rr, err := b.Receive(fmt.Sprintf("k%d", i), context.Background()); err == nil {
+					fns[i] = rr
+				} else if !errors.Is(err, utils.ErrClosed) {
+					fmt.Printf("BAD Receive racing Close failed with %v: unexpected-error\n", err)
+				}
+			}()
+		}
+		wg.Add(1)
+		go func() { defer wg.Done(); <-start; b.Close(nil) }()
+		close(start)
+		wg.Wait()
+		for i, rr := range fns {
+			if rr == nil {
+				continue
+			}
+			done := make(chan error, 1)
+			go func() { _, err := rr(); done <- err }()
+			select {
+			case err := <-done:
+				if !errors.Is(err, utils.ErrClosed) {
+					fmt.Printf("BAD round %d: the receive function of k%d returned %v after Close: not-closed\n", rounds, i, err)
+					fmt.Printf("DONE rounds=%d\n", rounds)
+					return
+				}
+			case <-time.After(2 * time.Second):
+				fmt.Printf("BAD round %d: Receive on a fresh key raced Close and was accepted; its receive function is still blocked 2 s after Close returned: blocked-after-close\n", rounds)
+				fmt.Printf("DONE rounds=%d\n", rounds)
+				return
+			}
+		}
+	}
+	fmt.Printf("DONE rounds=%d\n", rounds)
+}
